@@ -31,6 +31,7 @@ inductive Handler where
   | getitem                      -- operator.getitem
   | seqItem                      -- glom's _get_sequence_item
   | table (attr : String)        -- lambda o, k: getattr(o, attr)[k]
+  | glomTable (attr : String)    -- lambda o, k: glom(getattr(o, attr), Path(k)): a handler written with glom
   | raises (cls : String)        -- a handler that raises cls
   | off                          -- get=False
   | named (n : String)           -- any other callable: `Env.hsem n`
@@ -132,6 +133,10 @@ def Env.applyHandler (env : Env) (h : Heap) (hn : Handler) (cur arg : Val) : Acc
     match pyGetattr2 env.k h cur (.str a) with
     | .ok d => pyGetitem2 env.k h d arg
     | x => x
+  | .glomTable a =>
+    match pyGetattr2 env.k h cur (.str a) with
+    | .ok d => glomOnTable env.k h d arg
+    | x => x
   | .raises c => .err ⟨c⟩
   | .off => .beyond
   | .named n => env.hsem n h cur arg
@@ -147,6 +152,7 @@ def Env.handlerLog (env : Env) (h : Heap) (hn : Handler) (cur arg : Val) : List 
     (match pyGetattr2 env.k h cur (.str a) with
      | .ok d => itemLog env.k h d
      | _ => [])
+  | .glomTable a => attrLog env.k h cur (.str a)     -- the inner call runs on a plain dict
   | _ => []
 
 inductive TErr2 where
